@@ -7,9 +7,9 @@ from vlib import cN, cZ, clist, cpair, cbool, coq_print
 
 PID = "C05"
 MODULE, PKG, BIN = "cesium", "./verifh/c05", "c05"
-COQ_IMPORTS = "From Synnax Require Import Common.Base Cesium.Control Monitors.Mon_C05."
+COQ_IMPORTS = "From Synnax Require Import Common.Base Cesium.Control Cesium.ControlMonitor Monitors.Mon_C05."
 CASE_TYPE = "case_t"
-COUNTS = {"quick": 1000, "thorough": 40000}
+COUNTS = {"quick": 1000, "thorough": 20000}
 SHARD = 125
 MAXTS = 2 ** 63 - 1
 AUTHS = [0, 1, 127, 254, 255]
@@ -17,7 +17,7 @@ STARTS = [0, 10, 20, 30, 40, 50]
 ST = {"ok": 0, "unauth": 1, "valid": 2, "multi": 3, "resfail": 4, "skip": 5, "config": 7, "other": 8}
 
 RULE = ("scripts of 4-16 ops over open/set-authority/release on one Controller (35% shared mode), 4 subjects, authorities "
-        "mostly from {0,1,127,254,255}, ranges 55% [s,MAX) as cesium writers use, else bounded/touching/zero-length/"
+        "mostly from {0,1,127,254,255}, ranges [s,MAX) as cesium writers use in 40% of the scripts (one region), else mostly bounded/touching/zero-length/"
         "reversed ranges over a 6-point alphabet (several regions, multi-region spans), flags ErrIfControlled / "
         "ErrOnUnauthorizedOpen / failing OpenResource; ~12% of ops malformed (empty subject, zero range, duplicate "
         "subject, dead or reused handle). Non-trivial = a hand-over between two subjects AND (a tie between the two "
@@ -35,9 +35,9 @@ PARTIAL = ("the concurrent clause is proved for every interleaving of ATOMIC ope
 # ------------------------------------------------------------------ generator
 def rand_range(rng):
     x = rng.random()
-    if x < 0.55:
+    if x < 0.28:
         return rng.choice(STARTS[:4]), MAXTS
-    if x < 0.85:
+    if x < 0.82:
         a, b = sorted(rng.sample(STARTS, 2))
         return a, b
     if x < 0.89:
@@ -58,31 +58,39 @@ def rand_auth(rng):
 def gen_case(rng):
     n = rng.randrange(4, 17)
     shared = rng.random() < 0.35
-    ops, live, used = [], [], []
-    single = rng.random() < 0.45   # every range [s,MAX): one region, as on a cesium channel
+    ops, live, used = [], {}, []
+    single = rng.random() < 0.4   # every range [s,MAX): one region, as on a cesium channel
+    nsubj = rng.choice([3, 4, 4, 6])
     for i in range(n):
         x = rng.random()
-        if x < 0.45 or not live:
+        if x < 0.42 or not live:
             s, e = (rng.choice(STARTS[:3]), MAXTS) if single else rand_range(rng)
             h = i
             if used and rng.random() < 0.03:
                 h = rng.choice(used)
-            subj = rng.randrange(1, 5)
-            if rng.random() < 0.03:
+            free = [k for k in range(1, nsubj + 1) if k not in live.values()]
+            subj = rng.choice(free) if free and rng.random() < 0.88 else rng.randrange(1, nsubj + 1)
+            if rng.random() < 0.025:
                 subj = 0
-            o = {"op": "open", "h": h, "subj": subj, "auth": rand_auth(rng), "s": s, "e": e,
-                 "eic": rng.random() < 0.08, "eou": rng.random() < 0.15, "resfail": rng.random() < 0.04}
+            auth = rand_auth(rng)
+            if live and rng.random() < 0.25:     # provoke ties with an existing gate
+                auth = rng.choice([o["auth"] for o in ops if o["op"] == "open"])
+            o = {"op": "open", "h": h, "subj": subj, "auth": auth, "s": s, "e": e,
+                 "eic": rng.random() < 0.07, "eou": rng.random() < 0.13, "resfail": rng.random() < 0.03}
             ops.append(o)
             used.append(h)
-            live.append(h)   # optimistic: may have failed
-        elif x < 0.75:
-            h = rng.choice(live) if rng.random() < 0.93 else rng.randrange(0, n)
-            ops.append({"op": "set", "h": h, "auth": rand_auth(rng)})
+            live[h] = subj   # optimistic: may have failed
+        elif x < 0.74:
+            h = rng.choice(list(live)) if rng.random() < 0.95 else rng.randrange(0, n)
+            auth = rand_auth(rng)
+            if rng.random() < 0.3:               # raise/lower to exactly another gate's authority
+                auth = rng.choice([o["auth"] for o in ops if o["op"] in ("open", "set")])
+            ops.append({"op": "set", "h": h, "auth": auth})
         else:
-            h = rng.choice(live) if rng.random() < 0.93 else rng.randrange(0, n)
+            h = rng.choice(list(live)) if rng.random() < 0.95 else rng.randrange(0, n)
             ops.append({"op": "release", "h": h})
-            if h in live and rng.random() < 0.9:
-                live.remove(h)
+            if h in live and rng.random() < 0.92:
+                del live[h]
     return {"kind": "ctl", "shared": shared, "ops": ops}
 
 
@@ -206,8 +214,8 @@ def model_dump(case, r):
 
 
 # ------------------------------------------------------------------ extra phases
-CONC_COUNTS = {"quick": 90, "thorough": 3000}
-E2E_COUNTS = {"quick": 120, "thorough": 4000}
+CONC_COUNTS = {"quick": 90, "thorough": 1200}
+E2E_COUNTS = {"quick": 120, "thorough": 2500}
 
 
 def gen_conc(rng):
@@ -379,8 +387,25 @@ def extra(ctx):
                      "checked for linearizability against the model inside Coq")
 
 
-READY = False
+READY = True
 TECHNIQUE = "Coq proof (invariant induction over op lists, order-independence of the map loops) + model/impl correspondence by vm_compute"
 DESIGN_REF = "DESIGN.md §8 C05, §9 F14"
-LEVEL_TEXT = "TODO"
-LEVEL_NOTE = "TODO"
+LEVEL_TEXT = ("Machine-checked Coq theorems over an executable Gallina copy of Controller.OpenGate / region.open / release / "
+              "update / Gate.Authorize (binary-search region insert, time-range widening, every error path, exclusive and "
+              "shared mode): after ANY sequence of open/set-authority/release the controller of every region is the open "
+              "gate with the highest authority, ties to the earliest open (C05_leader_inv, C05_gates_in_open_order); "
+              "Authorize succeeds iff holder (exclusive) / authority >= holder's (shared) (C05_authorize_iff); every call "
+              "returns one transfer naming exactly the previous and next holder and never touches two regions "
+              "(C05_transfer_exact); folding the transfers reconstructs the holders (C05_transfers_reconstruct); the result "
+              "is independent of Go's map iteration order (C05_order_independent, all permutations, per call). The model is "
+              "tied to /repo on every run: scripted histories drive the real control package (outputs, Authorize of every "
+              "open gate, LeadingState and a dump of every region compared inside Coq), plus an end-to-end phase through "
+              "the public cesium writer API (authorized flag of every write and the final Read) and a concurrent phase. A "
+              "decidable monitor states the property on the implementation's observations and yields the replay.")
+LEVEL_NOTE = ("Trusted: Coq kernel/vm_compute; hand-written model (tied by correspondence, not translation); harness + "
+              "read-only hook VerifDump; generator. Partial clause: concurrency is proved for interleavings of atomic steps "
+              "(C05_every_schedule_partial); atomicity of the Go calls is only validated (-race, GOMAXPROCS 1/2/8, "
+              "linearizability of recorded histories checked in Coq). Use of a gate after its release and int64 overflow of "
+              "time-stamp differences are outside the model. F14 (gate spanning two regions left an orphan holder) was "
+              "reproduced by this check on the unfixed tree and repaired by fix: commit 5e5f468; "
+              "C05_upstream_open_refuted keeps the witness. All theorems closed under the global context.")
